@@ -272,11 +272,12 @@ mode_days(void)
 				bool wa2 = k <= addmax || k % addstride2 == 0;
 				if (ia + k < NDAYS) day_pair(ia, ia + k, wa, wa2);
 				if (ia - k >= 0) day_pair(ia, ia - k, wa, wa2);
-				if (!(k & 0xfff)) vd_beat();
+				if (!(k & 0x3ff)) vd_beat();
 			}
 		} else {
 			static const int per[] = {365, 366, 1461};
 			day_pair(ia, ia, true, true);
+			vd_beat();
 			for (long k = 1; k <= 400; k++) {
 				if (ia + k < NDAYS) day_pair(ia, ia + k, true, true);
 				if (ia - k >= 0) day_pair(ia, ia - k, true, true);
@@ -393,7 +394,7 @@ mode_intraday(void)
 					bnd_pair(&saf, &sb);
 				}
 			}
-			if (!(dk & 0xff)) vd_beat();
+			if (!(dk & 0x1f)) vd_beat();
 		}
 		lv_flush();
 		vd_sh->evals += n_eval;
@@ -424,6 +425,7 @@ mode_durs(void)
 		vd_desc("instants around midnight %s|%s plus/minus a list of %zu durations", istr(s.i[0]), istr(s.i[s.n / 2]), sizeof(D) / sizeof(*D));
 		n_eval = n_nontriv = 0;
 		for (int x = 0; x < s.n; x++) {
+			vd_beat();
 			for (size_t j = 0; j < sizeof(D) / sizeof(*D); j++) {
 				for (int sg = 0; sg < 2; sg++) {
 					int64_t d = sg ? -D[j] : D[j];
@@ -483,6 +485,7 @@ mode_fixup(void)
 			first = cv_days_from_civil(my, mm, 1);
 			n_eval = n_nontriv = 0;
 			for (unsigned d = 1; d <= 62; d++) {
+				vd_beat();
 				for (unsigned H = 0; H <= 49; H++) {
 					const bool allday = H == 49;
 					for (int iM = 0; iM < (allday ? 1 : 4); iM++) {
@@ -598,7 +601,7 @@ mode_epoch(void)
 					       istr(I), got, t, dl);
 				}
 			}
-			if (all && !(k & 0xfff)) vd_beat();
+			if (all && !(k & 0x3ff)) vd_beat();
 		}
 		lv_flush();
 		vd_sh->evals += n_eval;
@@ -639,7 +642,7 @@ mode_epoch(void)
 			if ((int64_t)echs_instant_to_epoch(J) != t) {
 				rtbad++;
 			}
-			if (all && !(k & 0xfff)) vd_beat();
+			if (all && !(k & 0x3ff)) vd_beat();
 		}
 		lv_flush();
 		if (rtbad) vd_count("to_epoch(from_epoch(t))!=t", rtbad);
